@@ -127,15 +127,27 @@ var malformed = []string{
 	"sched 1 N0o;N0o 2", "sched 1 N0o 0a", "sched 1 N0o,N0o,N0o,N0o,N0o,N0o,N0o,N0o,N0o 0",
 	"sched 1 -;-;-;-;-;-;- 0", "sched 1 Gx 0", "sched 1 G0 0", "sched 2 d2 0", "sched 1 n0o 0", "run 1 N0o 0",
 	"sched 1 N0o -0", "sched 1 N0o " + strings.Repeat("0", 201), "sched x N0o 0", "sched 1 ; 0",
+	"stress 1 4 100 1", "stress 1 1 100 1 a", "stress 1 9 100 1 a", "stress 1 4 0 1 a", "stress 1 4 5001 1 a",
+	"stress 1 4 100 0 a", "stress 1 4 100 5 b", "stress 1 4 100 1 c", "stress x 4 100 1 a", "stress 1234567890 4 100 1 a",
+	"stress 1 4 1e2 1 a", "stress -1 4 100 1 a",
 }
 
 func (prop) Generate(rng *core.Rand, tier string, emit func(string)) {
-	nRandom, enumLen2, enumLen3, sample3 := 9000, 8, 6, 150
+	nRandom, enumLen2, enumLen3, sample3, nStress := 40000, 8, 6, 300, 300
 	switch tier {
 	case "thorough":
-		nRandom, enumLen2, enumLen3, sample3 = 150000, 10, 8, 3000
+		nRandom, enumLen2, enumLen3, sample3, nStress = 600000, 10, 8, 3000, 6000
 	case "search":
-		nRandom, enumLen2, enumLen3, sample3 = 20000, 8, 6, 300
+		nRandom, enumLen2, enumLen3, sample3, nStress = 40000, 8, 6, 300, 1500
+	}
+	// un-forced stress runs (real scheduler)
+	for i := 0; i < nStress; i++ {
+		mode := "a"
+		if i%2 == 1 {
+			mode = "b"
+		}
+		emit("stress " + strconv.Itoa(rng.Intn(1000000)) + " " + strconv.Itoa(2+rng.Intn(7)) + " " +
+			strconv.Itoa(200+rng.Intn(2800)) + " " + strconv.Itoa(1+rng.Intn(2)) + " " + mode)
 	}
 	for _, m := range malformed {
 		emit(m)
